@@ -461,8 +461,14 @@ def opaque_call(ev, n, e):
     f = _OPQ[n]
     args = [ev.it.coerce(ev.ev(a), t, ev.st, e, ev.frame, spec=True) for a, t in zip(e.args, tys)]
     u = ev.u
-    if n in u.contract.reveal and ("reveal:" + n) not in u.used:
+    if text is not None and n in u.contract.reveal and ("reveal:" + n) not in u.used:
         u.used.add("reveal:" + n)
+        if (n + "_z") in ev.reg.opaques:
+            # recursive definition with one level of fuel: the body mentions NAME_z, a synonym that is never unfolded
+            if (n + "_z") not in _OPQ:
+                _OPQ[n + "_z"] = z3.Function("opq_" + n + "_z", *([sort_of(t) for t in tys] + [sort_of(rty)]))
+            vz = [z3.Const("oz_%s_%s" % (n, nm), sort_of(t)) for (nm, _), t in zip(ps, tys)]
+            u.bg.append(z3.ForAll(vz, f(*vz) == _OPQ[n + "_z"](*vz), qid="fuel-" + n, patterns=[f(*vz)]))
         vs = [z3.Const("oq_%s_%s" % (n, nm), sort_of(t)) for (nm, _), t in zip(ps, tys)]
         binds = {nm: Val(v, t) for (nm, _), v, t in zip(ps, vs, tys)}
         st0 = State()
